@@ -216,6 +216,12 @@ class ParsingFrontend(Serialize):
                 # A user lexer-callback raised an error
                 pass
 
+            if longest_match and matched_tokens[0].start_pos not in (None, match_start):
+                # The lexer preferred an ignored terminal at the candidate position (e.g. a comment that begins
+                # like an operator) and the match begins only after it. Accepting it would jump past real
+                # starts hiding inside the ignored span, so this candidate fails; try the next position.
+                longest_match = 0
+
             if longest_match:
                 # Match found! Replay tokens with real callbacks, and yield the result
                 matched = matched_tokens[:longest_match]
